@@ -191,7 +191,7 @@ def run(ck):
     thorough = ck.thorough()
     per = {'success': 40, 'auth-failure': 120, 'mismatch': 40, 'kernel-refusal': 120, 'hostile+lossy': 60}
     if thorough:
-        per = {k: v * 12 for k, v in per.items()}
+        per = {k: v * 60 for k, v in per.items()}
     n = 0
     for fname, fn in FAMILIES:
         for i in range(per[fname]):
